@@ -373,16 +373,28 @@ def jv_plain(v):
     return v[1] if v[0] != 'A' else [v[1], v[2]]
 
 
+SINGLE = {'Sensitive': 'sens', 'Cryptographic Length': 'len', 'Cryptographic Algorithm': 'alg', 'Cryptographic Usage Mask': 'mask',
+          'Operation Policy Name': 'policy', 'State': 'state', 'Object Type': 'type', 'Initial Date': 'init',
+          'Certificate Type': 'certtype'}
+
+
 def expected_after_success(st, ver, pre_obj):
-    """What the property demands of a successful call: (field, new content of that field) or a text explaining why a
-    success is itself unacceptable.  Written from the property text, not from the engine code."""
+    """What the property demands of a successful call: (field, content of that field afterwards), or a text explaining why
+    this success cannot be exact (no instance is addressed / GetAttributes cannot reflect it).  Written from the property
+    text, not from the engine code.  A success on a protected attribute is judged like any other: the field must hold the
+    requested value - and the separate protected-attributes check fires when that differs from the value before."""
     f = st['form']
     v2 = ver >= V2
+
+    def single(n, v):
+        if n in SINGLE:
+            return (SINGLE[n], jv_plain(v))
+        return 'success on %r, which GetAttributes does not reflect' % n
     if f == 'set':
         n, v = st['new']
-        if n == 'Sensitive':
-            return ('sens', v[1])
-        return 'SetAttribute succeeded on %r, which the server does not store as a client-settable attribute' % n
+        if n in MULTI:
+            return 'SetAttribute succeeded on the multi-valued attribute %r without addressing an instance' % n
+        return single(n, v)
     if f == 'mod':
         if v2:
             n, v = st['new']
@@ -390,10 +402,10 @@ def expected_after_success(st, ver, pre_obj):
         else:
             n, idx, v = st['attr']
             cur = None
-        if n == 'Sensitive':
-            return ('sens', v[1])
         if n not in MULTI:
-            return 'ModifyAttribute succeeded on %r' % n
+            if v2 and cur is not None and n in SINGLE and jv_plain(cur) != pre_obj[SINGLE[n]]:
+                return 'ModifyAttribute succeeded although the current value given is not the stored one'
+            return single(n, v)
         fld = MULTI[n]
         lst = list(pre_obj[fld])
         if v2:
@@ -411,7 +423,7 @@ def expected_after_success(st, ver, pre_obj):
             if st.get('cur') is not None:
                 n, v = st['cur']
                 if n not in MULTI:
-                    return 'DeleteAttribute succeeded on %r' % n
+                    return (SINGLE[n], None) if n in SINGLE else 'DeleteAttribute succeeded on %r, which GetAttributes does not reflect' % n
                 lst = list(pre_obj[MULTI[n]])
                 if jv_plain(v) not in lst:
                     return 'DeleteAttribute succeeded for a value that is not there'
@@ -419,11 +431,11 @@ def expected_after_success(st, ver, pre_obj):
                 return (MULTI[n], lst)
             n = st.get('ref')
             if n not in MULTI:
-                return 'DeleteAttribute succeeded on %r' % n
+                return (SINGLE[n], None) if n in SINGLE else 'DeleteAttribute succeeded on %r, which GetAttributes does not reflect' % n
             return (MULTI[n], [])
         n = st.get('name')
         if n not in MULTI:
-            return 'DeleteAttribute succeeded on %r' % n
+            return (SINGLE[n], None) if n in SINGLE else 'DeleteAttribute succeeded on %r, which GetAttributes does not reflect' % n
         lst = list(pre_obj[MULTI[n]])
         i = st.get('idx') or 0
         if not (0 <= i < len(lst)):
@@ -447,6 +459,14 @@ def sig_of(st, ver, kind):
         name = st['new'][0] if st.get('new') else None
     return {'op': {'mod': 'MODIFY_ATTRIBUTE', 'del': 'DELETE_ATTRIBUTE', 'set': 'SET_ATTRIBUTE'}[f],
             'form': '2.0' if ver >= V2 else '1.x', 'attribute': name, 'kind': kind}
+
+
+_WEAK = [0]
+STRONG = ('protected-changed', 'failure-changed-store', 'failed-batch-item-left-trace', 'other-object-changed', 'inexact-effect')
+
+
+def strong_found(ctx):
+    return any(v['signature'].get('kind') in STRONG for v in ctx.violations)
 
 
 def oracle_step(ctx, hist, k, st, ver, status_ok, reason, pre, post, pre_dump, post_dump, resp_item):
@@ -485,7 +505,9 @@ def oracle_step(ctx, hist, k, st, ver, status_ok, reason, pre, post, pre_dump, p
         return n + 1
     exp = expected_after_success(st, ver, pre_by[str(uid)])
     if isinstance(exp, str):
-        ctx.violation(sig_of(st, ver, 'unexpected-success'), dict(wit, before=pre_by[str(uid)], after=post_by[str(uid)]), exp)
+        _WEAK[0] += 1
+        if _WEAK[0] <= 10:      # leave room in the (capped) violation list for the stronger kinds
+            ctx.violation(sig_of(st, ver, 'no-exact-effect-possible'), dict(wit, before=pre_by[str(uid)], after=post_by[str(uid)]), exp)
         return n + 1
     fld, content = exp
     want = dict(pre_by[str(uid)])
@@ -914,20 +936,23 @@ def run(ctx):
         rng = ctx.subrng('finder')
         names = table_names()
         for j in range(150):
-            if ctx.violations:
+            if strong_found(ctx):
                 break
             h = random_history(rng, names + [BOGUS], 20)
             run_history(ctx, h, work)
         # protected attributes that are falsy are the ones a table edit exposes: objects without a usage mask
         for name in PROTECTED_NAMES:
-            if ctx.violations:
+            if strong_found(ctx):
                 break
             for t in TYPES:
                 h = grid_history(rng, name, t, (1, 2))
                 for o in h['objects']:
                     o['mask'] = None
                 run_history(ctx, h, work)
+    order = {'protected-changed': 0, 'failure-changed-store': 1, 'failed-batch-item-left-trace': 1, 'other-object-changed': 2,
+             'inexact-effect': 3, 'no-exact-effect-possible': 4}
     n = batch_frame_oracle(ctx, ctx.subrng('batch'), work, 30 if ctx.tier == 'quick' else 300)
+    ctx.violations.sort(key=lambda v: order.get(v['signature'].get('kind'), 9))
     ctx.log('batch frame oracle: %d batches' % n)
     if cases:
         ctx.sample({'history': metas[0][1]['steps'][:3], 'results': metas[0][2]['results'][:3]})
